@@ -4,16 +4,17 @@ From Coq Require Import List NArith Bool.
 Import ListNotations.
 Open Scope N_scope.
 
-(* position after consuming exactly [n] characters of [s], starting at (line, col) *)
+(* position after consuming exactly [n] characters of [s], starting at (line, col).  One character at a time:
+   LF starts a new line; CR starts a new line unless an LF follows, in which case the pair counts as one break and
+   the position between the two is still on the old line. *)
 Fixpoint pos_go (s : list N) (n : nat) (line col : N) : N * N :=
   match n, s with
   | O, _ => (line, col)
   | S n, c :: r =>
       if (c =? 13) then
-        match n, r with
-        | S n', 10 :: r' => pos_go r' n' (line + 1) 0
-        | O, 10 :: _ => (line, col + 1)     (* index between CR and LF: still on the old line *)
-        | _, _ => pos_go r n (line + 1) 0
+        match r with
+        | 10 :: _ => pos_go r n line (col + 1)
+        | _ => pos_go r n (line + 1) 0
         end
       else if (c =? 10) then pos_go r n (line + 1) 0 else pos_go r n line (col + 1)
   | S _, [] => (line, col)
